@@ -1,7 +1,7 @@
 """C09 - replacing an operand never changes how the surrounding expression groups."""
 from pyvc import native, frontend
 from pyvc.contract import verify_all
-from contracts import k_prec
+from contracts import k_prec, k_bistr
 
 
 def run(rep, tier, seed):
@@ -38,6 +38,9 @@ def run(rep, tier, seed):
                        'point; one representative source per child kind (the oracle depends on types and flags only)')
     # the parenthesisation decision tree of the put path, every combination of callee answers
     verify_all(rep, k_prec.decision_specs('C09'))
+    # parentheses / delimiters are written next to a node and then the node's extent is moved over them: the byte / character
+    # unit discipline of every such position write (a wrong unit shows only on lines with multi-byte text, on the NEXT edit)
+    k_bistr.units_structural(rep, 'C09')
     sec = native.run('b_prec', 'main', {'tier': tier, 'seed': seed}, timeout=7200)
     sec['native_entry'] = ('b_prec', 'replay')
     rep.bounded(sec)
